@@ -3,7 +3,9 @@
 #include <amc/smallvector.hpp>
 #include <amc/fixedcapacityvector.hpp>
 #include <amc/flatset.hpp>
+#if __cplusplus >= 201703L
 #include <amc/smallset.hpp>
+#endif
 
 using namespace amc;
 using namespace amc::vec;
@@ -64,6 +66,7 @@ USE_ELEM(ElemTC, uint8_t)
 USE_INT(ElemNR, uint8_t)
 USE_INT(ElemTR, uint8_t)
 
+#ifdef AMC_NONSTD_FEATURES
 // swap2 between flavours and size types
 template <class A, class B>
 void use_swap2(A &a, B &b) { a.swap2(b); }
@@ -83,3 +86,4 @@ SW(ElemNR, uint8_t, uint8_t)
 SW(ElemTR, uint8_t, uint8_t)
 SW(ElemNR, uint8_t, uint16_t)
 SW(ElemNR, uint16_t, uint8_t)
+#endif
